@@ -205,6 +205,19 @@ func (h *Hist) Exec(op string) *BlockResult {
 			h.Observe(h, &br, pend)
 		}
 		return &br
+	case "skip": // skip <n> <dt_ms>: n empty blocks without per-block observation (only halts are recorded)
+		n, _ := strconv.Atoi(f[1])
+		ms, _ := strconv.ParseInt(f[2], 10, 64)
+		for i := 0; i < n; i++ {
+			br := c.NextBlock(BlockOpts{Dt: time.Duration(ms) * time.Millisecond})
+			if br.Err != "" || br.Process != "ACCEPT" {
+				if h.Observe != nil {
+					h.Observe(h, &br, nil)
+				}
+				return &br
+			}
+		}
+		h.Out = append(h.Out, fmt.Sprintf("SKIP n=%d dt=%d h=%d", n, ms, c.Height))
 	case "tip":
 		a := h.acct(f[1])
 		h.queue(op, "tip", a, 400000, map[string]string{"amt": f[3]}, &oracletypes.MsgTip{Tipper: a.Addr.String(), QueryData: h.query(f[2]), Amount: coin(f[3])})
